@@ -1325,9 +1325,15 @@ int ov_raw_seek(OggVorbis_File *vf,ogg_int64_t pos){
               ogg_int64_t granulepos=op.granulepos-vf->pcmlengths[link*2];
               if(granulepos<0)granulepos=0;
 
+              /* back up over the scanned packets, but never past the
+                 start of this link (a page that is both first and last
+                 carries a short granpos) */
+              granulepos-=accblock;
+              if(granulepos<0)granulepos=0;
+
               for(i=0;i<link;i++)
                 granulepos+=vf->pcmlengths[i*2+1];
-              vf->pcm_offset=granulepos-accblock;
+              vf->pcm_offset=granulepos;
               if(vf->pcm_offset<0)vf->pcm_offset=0;
               break;
             }
